@@ -10,9 +10,11 @@ NOTE = ("Trusted: go/ssa translation (x/tools v0.29.0), the engine's SSA semanti
 claimed = {
  "C17": dict(text="Bounded model checking of the inductive step of the per-address balance index (client/wallet TxNotifyAdd / TxNotifyDel, NewUTXO / all_del_utxos): from every index state in which one address holds 0..3 outputs "
                   "(list or map representation, arbitrary values at or above an arbitrary minimum) one UTXO notification - a two-output transaction with arbitrary scripts and values, or a removal with an arbitrary spent mask, "
-                  "also of never-indexed outputs - leaves each address record equal to the projection of the changed set (members, count, total, no record for an empty address).",
+                  "also of never-indexed outputs - leaves each address record equal to the projection of the changed set (members, count, total, no record for an empty address); and the link to the UTXO database: "
+                  "connecting a change set (CommitBlockTxs: spend an arbitrary subset of a record's outputs, create a record) notifies exactly one deletion (full record and mask) and one addition and leaves the map equal to pre - spent + created; "
+                  "disconnecting it (UndoBlockTxs, undo data through a file) notifies the removal of the created record and the re-addition of exactly the spent outputs and restores the map.",
              ref="6/C17", note=NOTE + "One inductive step from bounded pre-states built to satisfy the representation invariant; the address key (SipHash of the script payload) is computed for concrete addresses. "
-                  "Outside: that the UTXO database emits exactly these notifications on connect / disconnect (lib/utxo commit, undo), building the index from a populated set, the GetAllUnspent listing, more than 3 outputs per address, SipHash collisions between addresses. "),
+                  "The undo file goes through an in-memory file map under the engine (native replays use real files). Outside: block histories (only single steps are decided), change sets with more than one spent and one created record, building the index from a populated set, the GetAllUnspent listing, more than 3 outputs per address, SipHash collisions between addresses. "),
  "C03": dict(text="Bounded model checking of the scalar range gate of ECDSA verification (acceptance implies r, s in [1, n-1]; DER signatures with R and S of 1..33 bytes; the curve computation replaced by a stub with arbitrary verdict and x coordinate) "
                   "and of signature serialisation (Signature.Bytes is strict minimal DER and parses back for every r, s in [1, 2^256)); public-key parsing for every length and prefix (accepted implies coordinates below p, on the curve, announced parity; valid uncompressed keys are accepted), "
                   "x-only keys, the BIP341 tweak check and the BIP340 gates (key, r < p, s < n, finite even-y nonce point), with field products / square root as uninterpreted functions and the double multiplication as an arbitrary point.",
@@ -62,7 +64,7 @@ claimed = {
 }
 
 na = {
- "C06": "histories over disk-backed state, float work sums and goroutine workers cannot be encoded as a bounded symbolic pre-state by this engine (DESIGN.md 6/C06)",
+ "C06": "the tip rule is decided by float64 work sums (MorePOW) over block-tree histories with blocks re-read from the disk store: floats and histories are outside this engine; only the single connect/disconnect step of the UTXO map (disconnecting restores what was spent and removes what was created) is decided, as part of C17's H_C17_Notifications (DESIGN.md 6/C06)",
  "C07": "quantifies over OS file-system states between syscalls (crash points); nothing there is code the encoder can execute (DESIGN.md 6/C07)",
  "C11": "quantifies over thread interleavings; the engine executes one sequential schedule (DESIGN.md 6/C11)",
  "C12": "invariant over histories of five mutually referencing global pointer maps; needs an unbounded symbolic heap (DESIGN.md 6/C12)",
